@@ -282,7 +282,7 @@ theorem lexParams_render (c : Connector) (h : validate c = true) : lexParams (re
 
 /-! ### injection -/
 
-open Varpulis.Expand (rustLines linesGo stripCR)
+open Varpulis.Expand (rustLines linesGo stripCR trim)
 
 /-- no stored connector asks for the `append_pipeline` rewriting of `.from(…)`/`.to(…)` references -/
 def noAppendMode (store : Store) : Bool :=
@@ -339,5 +339,57 @@ theorem rustLines_preamble (decls : List Text) (source : Text) :
         = d ++ '\n' :: (List.map (fun d => d ++ ['\n']) ds).flatten := by simp
     rw [e1, e2, linesGo_append_nl d ((List.map (fun d => d ++ ['\n']) ds).flatten ++ source) [],
       linesGo_append_nl d ((List.map (fun d => d ++ ['\n']) ds).flatten) [], ih, List.append_assoc]
+
+/-! ### the `append_pipeline` rewriting -/
+
+/-- the `append_pipeline` rewriting leaves every line alone that is not a `stream …` line -/
+theorem appendLine_other (cname baseId line : Text) (h : "stream ".toList.isPrefixOf (trim line) = false) :
+    appendLine cname baseId line = line := by
+  unfold appendLine
+  simp only [h, Bool.false_eq_true, if_false]
+
+theorem replaceOutside_shape (pat to pre : Text) (l r : Text) (h : replaceOutside pat to pre l = some r) :
+    ∃ a b, pre ++ l = a ++ pat ++ b ∧ r = a ++ to ++ b := by
+  induction l generalizing pre with
+  | nil => simp [replaceOutside] at h
+  | cons c cs ih =>
+    simp only [replaceOutside] at h
+    split at h
+    · rename_i hc
+      simp only [Bool.and_eq_true] at hc
+      obtain ⟨t, ht⟩ := List.isPrefixOf_iff_prefix.mp hc.1
+      cases h
+      refine ⟨pre, t, by rw [← ht]; simp, ?_⟩
+      rw [← ht]; simp
+    · obtain ⟨a, b, h1, h2⟩ := ih (pre ++ [c]) h
+      exact ⟨a, b, by simpa using h1, h2⟩
+
+/-- … and changes a `stream` line at most by replacing one reference `.from(name,` / `.to(name,` with
+the same reference followed by a `client_id` parameter -/
+theorem appendLine_shape (cname baseId line : Text) :
+    appendLine cname baseId line = line ∨
+    ∃ a b p ins, line = a ++ p ++ b ∧ appendLine cname baseId line = a ++ ins ++ b ∧
+      (p = ".from(".toList ++ cname ++ [','] ∨ p = ".to(".toList ++ cname ++ [',']) ∧
+      ∃ pname, ins = p.dropLast ++ ", client_id: \"".toList ++ escape baseId ++ ['-'] ++ pname ++ "\",".toList := by
+  unfold appendLine
+  simp only []
+  split
+  · split
+    · rename_i pname _
+      simp only [List.filterMap_cons, List.filterMap_nil]
+      cases h1 : replaceOutside (".from(".toList ++ cname ++ [',']) _ [] line with
+      | some r =>
+        right
+        obtain ⟨a, b, hl, hr⟩ := replaceOutside_shape _ _ [] line r h1
+        exact ⟨a, b, _, _, by simpa using hl, by simpa using hr, Or.inl rfl, pname, rfl⟩
+      | none =>
+        cases h2 : replaceOutside (".to(".toList ++ cname ++ [',']) _ [] line with
+        | some r =>
+          right
+          obtain ⟨a, b, hl, hr⟩ := replaceOutside_shape _ _ [] line r h2
+          exact ⟨a, b, _, _, by simpa using hl, by simpa using hr, Or.inr rfl, pname, rfl⟩
+        | none => left; simp
+    · left; rfl
+  · left; rfl
 
 end Varpulis.Connector
